@@ -1,6 +1,7 @@
 (* C13 — (s,S): the reported cost equals the stationary cost of the inventory-position chain, and what the exact
    (Zheng-Federgruen) algorithm guarantees about the pair it returns.
-   Statements only; every proof is [exact <lemma of Alg/SS_proofs.v>].
+   Statements only; every proof is [exact <lemma of Alg/SS_proofs.v or (second part: the reported cost is the long-run average
+   expected cost from every start) Alg/SSErgo_proofs.v>].
    Model: Alg/SS.v.  pmf = [p_0; ..; p_D] (pf pmf l = p_l, = 0 for l > D), exact rationals.
      m, M            renewal function of ss.py and its partial sums
      gcost pmf G K s S = (K + sum_{d<S-s} m(d) G(S-d)) / M(S-s)      -- what s_s_cost_discrete returns
